@@ -3,6 +3,7 @@
    T <hex>      the created validation of pack.go (validateRFC3339) accepts
    L <hex>      time.Parse(time.RFC3339, _) alone succeeds (the lenient recogniser)
    F y mo d h mi s   time.Date(..., UTC).Format(time.RFC3339) of a valid civil time (INVALID otherwise)
+   D <hex>      mediaType, artifactType and config (mediaType:digest:size) a stored manifest document declares (NONE = absent)
    A <ann>      json.Marshal of a map[string]string and the pairs read back from it, in document order
    S <hex>      digest.FromBytes(..).String() (sha256)
    J <hex>      json.Marshal of a string (escaping)      B <hex>   base64.StdEncoding of bytes
@@ -130,6 +131,13 @@ let () =
       if civil_ok (n y) (n mo) (n d) (n h) (n mi) (n s)
       then Printf.printf "%s %s\n" id (hex_of_str (format_rfc3339_utc (n y) (n mo) (n d) (n h) (n mi) (n s)))
       else Printf.printf "%s INVALID\n" id
+    | [id; "D"; h] ->
+      let bs = str_of_hex h in
+      let sh o = match o with Some x -> hex_of_str x | None -> "NONE" in
+      let cfg = match doc_config_head bs with
+        | Some ((mt, dg), n) -> Printf.sprintf "%s:%s:%d" (hex_of_str mt) (hex_of_str dg) (int_of_n n)
+        | None -> "NONE" in
+      Printf.printf "%s %s %s %s\n" id (sh (doc_media_type bs)) (sh (doc_artifact_type bs)) cfg
     | [id; "A"; a] ->
       let l = ann_of a in
       let bytes = json_ann l in
